@@ -493,7 +493,6 @@ func c02slowSmall(c *Check, env *Env, script *Script, seed int64, name string) {
 	script.Forget(keys...)
 }
 
-
 // c02stopAndGo: a client that reads in bursts while replies keep arriving
 // (backlog spills past the static part, is partly drained, then grows again),
 // twice on the same connection with a complete drain in between; between the
